@@ -27,7 +27,34 @@ def occurrence(rng, swords, styles, compound=0.25, plural=0.1):
     return render(st, ws)
 
 
+def trap_line(rng, swords, styles):
+    """a line on which "the first textual occurrence" and "the match" differ, with multi-byte text in between:
+    an occurrence embedded in a longer word (`x<term>y`, no boundary: not a match) or an earlier match of the SAME variant,
+    then a multi-byte character, then the match.  Any position mix-up (character offset used as byte column, search
+    instead of column) shows the wrong occurrence replaced."""
+    occ = render(rng.choice(styles), swords)
+    k = rng.random()
+    if k < 0.45:
+        head = rng.choice(["x", "my", "Z", "q9"]) + occ + rng.choice(["y", "s2", "Q", "z"])
+    elif k < 0.8:
+        head = rng.choice(WRAPS).format(occ)
+    else:
+        head = rng.choice(["x", "pre"]) + occ + "y " + occ
+    mid = " ".join([rng.choice(MB)] + [rng.choice(FILLER + MB) for _ in range(rng.randint(0, 2))])
+    tail = rng.choice(WRAPS).format(occ)
+    out = [head, mid, tail]
+    if rng.random() < 0.4:
+        out += [rng.choice(MB), rng.choice(WRAPS).format(occ)]
+    if rng.random() < 0.5:
+        out.append(rng.choice(FILLER))
+    if rng.random() < 0.3:
+        out.insert(0, rng.choice(FILLER + MB))
+    return " ".join(out)
+
+
 def gen_line(rng, swords, styles, max_occ=4, multibyte=0.3, long=False):
+    if not long and rng.random() < 0.18:
+        return trap_line(rng, swords, styles)
     parts = []
     if long:
         parts.append("pad " * rng.randint(2000, 2600))
